@@ -165,6 +165,54 @@ def run_injection(b: Batch, led, ndirs, where, k, en, running):
           {"kind": "inj1", "ndirs": ndirs, "where": where, "k": k, "errno": en, "running": running})
 
 
+def run_thread_start_fault(b: Batch, led, cls_name, running):
+    """schedule() / start() fails because a library thread cannot be started (RuntimeError: can't start new thread, as at a
+    thread limit) - a failure at a step AFTER descriptors or helper threads have been created for the watch."""
+    c = apireal.Case("inotify", led, tree_dirs=1)
+    real_start = threading.Thread.start
+    state = {"armed": False, "fired": 0}
+
+    def start(self):
+        if state["armed"] and type(self).__name__ == cls_name and not state["fired"]:
+            state["fired"] += 1
+            raise RuntimeError("can't start new thread")
+        return real_start(self)
+
+    threading.Thread.start = start
+    try:
+        if running:
+            c.call("schedule", "p1")
+            c.call("start")
+        open_before = set(led.open_fds())
+        lib_before = {t for t in threading.enumerate() if apireal.is_library_thread(t)}
+        state["armed"] = True
+        if running:
+            rec = c.call("schedule", "p2")
+        else:
+            c.call("schedule", "p2")
+            rec = c.call("start")
+        state["armed"] = False
+    finally:
+        threading.Thread.start = real_start
+    b.case()
+    rs = {"kind": "tsf1", "cls": cls_name, "running": running}
+    if state["fired"]:
+        b.count("thread_start_faults_fired")
+        b.nontrivial(["tsf", cls_name, running])
+        if rec["status"] == "raised":
+            b.count("thread_start_faults_that_made_the_call_raise")
+            new_open = set(led.open_fds()) - open_before
+            new_thr = [t for t in threading.enumerate() if apireal.is_library_thread(t) and t not in lib_before and t is not c.obs]
+            left = monitors.wait_threads_gone(new_thr, grace=1.0)
+            if new_open or left:
+                b.violation("leak-after-thread-start-failure",
+                            f"{rec['op']} raised ({rec['exc']}) because a {cls_name} thread could not be started, but descriptors {sorted(new_open)} / threads "
+                            f"{[monitors.thread_desc(t) for t in left]} created for that watch are still there",
+                            witness={"cls": cls_name, "running": running, "log": c.log}, replay_spec=rs)
+    out = c.finish()
+    judge(b, out, c.log, {"thread_start_fault": [cls_name, running]}, rs)
+
+
 def strace_crosscheck(b: Batch):
     """Independent syscall-level cross-check: a child process runs start/stop cycles under strace -f; every close() of a
     descriptor obtained from inotify_init/pipe must succeed exactly once and no traced syscall may return EBADF."""
@@ -254,6 +302,7 @@ def plan(tier, seed, jobs):
         for nd in range(1, 5):
             specs.append({"kind": "inject", "ndirs": nd, "budget_s": 60})
         specs.append({"kind": "longlived", "n": 3, "rounds": 60, "seed": seed, "budget_s": 60})
+        specs.append({"kind": "tsf"})
         for j in range(6):
             specs.append({"kind": "holds", "seed": seed, "j": j, "of": 6, "budget_s": 60})
         specs.append({"kind": "strace"})
@@ -264,6 +313,7 @@ def plan(tier, seed, jobs):
             specs.append({"kind": "inject", "ndirs": nd, "budget_s": 600})
         for j in range(4):
             specs.append({"kind": "longlived", "n": 10, "rounds": 400, "seed": seed + j, "budget_s": 800})
+        specs.append({"kind": "tsf"})
         for j in range(jobs):
             specs.append({"kind": "holds", "seed": seed, "j": j, "of": jobs, "budget_s": 900, "reps": 10})
         specs.append({"kind": "strace"})
@@ -285,6 +335,12 @@ def run_batch(spec):
                 break
             run_cycle(b, r, led)
         pass
+    elif k == "tsf":
+        for cls_name in ("InotifyEmitter", "InotifyBuffer"):
+            for running in (True, False):
+                run_thread_start_fault(b, led, cls_name, running)
+    elif k == "tsf1":
+        run_thread_start_fault(b, led, spec["cls"], spec["running"])
     elif k == "longlived":
         r = rng_for(spec["seed"], "C12L")
         for n in range(spec["n"]):
